@@ -830,6 +830,48 @@ def run_mixtures(ctx):
                           case={"kind": "mixlp", "lps": hexlist(lps), "w": hexlist(w)}, found_input=not agree(rv, v), unit="U4-mixture")
 
 
+def run_nested_mixtures(ctx):
+    """A VmapMixture whose components are themselves VmapMixtures (scalar Normals): the law is the mixture with the products of the
+    normalised weights; KS of N samples against that CDF, and log_prob against the scipy mixture density.  A sampler that reuses
+    a key between the levels locks the inner choice to the outer one (seeded change C05e): each level alone still looks right."""
+    s = _setup()
+    jnp, jr, eqx, D, sps = s["jnp"], s["jr"], s["eqx"], s["fd"], s["sps"]
+    from scipy import stats as st
+
+    u = ctx.unit("O3-nested-mixture", f"search oracle: VmapMixture of VmapMixtures of scalar Normals, KS of N={N_KS} samples against the flat mixture CDF "
+                                      f"(threshold {KS_THRESHOLD}) and log_prob against the scipy mixture density")
+    r = ctx.rng
+    for rep in range(2 if ctx.quick else 8):
+        no, ni = int(r.integers(2, 4)), int(r.integers(2, 4))
+        locs = np.sort(r.normal(0, 6, (no, ni)).ravel()).reshape(no, ni) if rep % 2 == 0 else r.normal(0, 6, (no, ni))
+        scales = np.exp(r.normal(-0.5, 0.4, (no, ni)))
+        w_in = np.exp(r.normal(0, 1.0, (no, ni)))
+        w_out = np.exp(r.normal(0, 1.0, no))
+        inner = eqx.filter_vmap(lambda lo, sc, w: D.VmapMixture(eqx.filter_vmap(D.Normal)(lo, sc), w))(jnp.asarray(locs), jnp.asarray(scales), jnp.asarray(w_in))
+        dist = D.VmapMixture(inner, jnp.asarray(w_out))
+        flat_w = ((w_out / w_out.sum())[:, None] * (w_in / w_in.sum(1, keepdims=True))).ravel()
+        cdf = lambda x: sum(wk * st.norm.cdf(x, lk, sk) for wk, lk, sk in zip(flat_w, locs.ravel(), scales.ravel()))  # noqa: E731
+        key = jr.PRNGKey(int(r.integers(0, 2**31 - 1)))
+        smp = np.asarray(eqx.filter_jit(lambda d, k: d.sample(k, (N_KS,)))(dist, key), dtype=np.float64).ravel()
+        d_ks = ks_stat(smp, cdf)
+        xs = r.normal(0, 7, 6)
+        lp = np.asarray(eqx.filter_jit(lambda d, x: d.log_prob(x))(dist, jnp.asarray(xs)), dtype=np.float64)
+        ref = np.array([sps.logsumexp(np.log(flat_w) + st.norm.logpdf(x, locs.ravel(), scales.ravel())) for x in xs])
+        u.count(("nested", no, ni, hx(locs.ravel()), hx(w_out)), nontrivial=True, tag=f"{no}x{ni}")
+        case = {"kind": "nested-mixture", "locs": locs.tolist(), "scales": scales.tolist(), "inner_weights": w_in.tolist(), "outer_weights": w_out.tolist(), "key": np.asarray(key).tolist()}
+        if not np.all(np.isfinite(smp)) or d_ks > KS_THRESHOLD:
+            # which flat component each draw is nearest to (in units of its scale): observed frequencies next to the law's
+            comp = np.argmin(np.abs(smp[:, None] - locs.ravel()[None, :]) / scales.ravel()[None, :], axis=1)
+            freq = np.bincount(comp, minlength=no * ni) / len(smp)
+            ctx.violation(sig="VmapMixture[VmapMixture].sample:ks", what=f"nested mixture ({no} x {ni} Normals): KS statistic {d_ks:.4f} > {KS_THRESHOLD} against the flat mixture CDF; "
+                          f"nearest-component frequencies {np.round(freq, 3).tolist()} vs weights {np.round(flat_w, 3).tolist()}", case=case, found_input=True, unit=u.name,
+                          expected=f"D <= {KS_THRESHOLD}", observed=f"D = {d_ks:.4f}", broken="samples follow the density (nested mixtures)")
+        if not np.allclose(lp, ref, rtol=1e-9, atol=1e-9):
+            j = int(np.argmax(np.abs(lp - ref)))
+            ctx.violation(sig="VmapMixture[VmapMixture].log_prob", what=f"nested mixture log_prob({xs[j]!r}) = {lp[j]!r}, scipy mixture density gives {ref[j]!r}", case=dict(case, x=float(xs[j])),
+                          found_input=True, unit=u.name, expected=float(ref[j]), observed=float(lp[j]), broken="mixture law (nested)")
+
+
 # ---------- U5 MultivariateNormal ----------
 def run_mvn(ctx):
     s = _setup()
@@ -964,7 +1006,7 @@ def run_large_events(ctx):
 def run(ctx):
     import time
     _setup()
-    for name, fn in (("families", run_families), ("ks", run_ks), ("mixtures", run_mixtures), ("mvn", run_mvn), ("large-events", run_large_events)):
+    for name, fn in (("families", run_families), ("ks", run_ks), ("mixtures", run_mixtures), ("nested-mixtures", run_nested_mixtures), ("mvn", run_mvn), ("large-events", run_large_events)):
         t0 = time.time()
         fn(ctx)
         ctx.notes.append(f"phase {name}: {time.time() - t0:.1f}s")
